@@ -16,3 +16,6 @@ Lemma fill_table_covers :
   existsb (fun r => let '(c, m, k, _) := r in String.eqb c "PadIfNeeded" && String.eqb m "apply_to_mask") fill_table = true /\
   existsb (fun r => let '(c, m, k, _) := r in String.eqb c "Rotate" && String.eqb m "apply_to_mask") fill_table = true.
 Proof. vm_compute. repeat split; reflexivity. Qed.
+
+Lemma mask_paths_do_not_borrow_the_image_fill : forallb (mask_path_row_ok fill_table) fill_table = true.
+Proof. vm_compute. reflexivity. Qed.
